@@ -163,8 +163,10 @@ Definition tracked_delta (c : hcfg) (r : hrec) (s : nat) : N :=
   match pos_in (c_tracked c) s with 0 => 0%N | S i => nth i (r_tracked_diff r) 0%N end.
 
 (* Query field comments: Active/Inactive = state of affairs AFTER the mutation,
-   Activated/Deactivated = flipped DURING the transition (the record carries
-   the per-state delta of its own transition: MTimeTrackedDiff) *)
+   Activated/Deactivated = flipped DURING the transition: the record carries
+   the per-state delta of its own transition (MTimeTrackedDiff), odd = the
+   state changed sides.  A Multi state re-entered in one transition moves its
+   tick by 2: active before and after, neither activated nor deactivated. *)
 Definition st_active (c : hcfg) (r : hrec) (s : nat) : bool := N.odd (tracked_tick c r s).
 Definition st_inactive (c : hcfg) (r : hrec) (s : nat) : bool := negb (N.odd (tracked_tick c r s)).
 Definition st_activated (c : hcfg) (r : hrec) (s : nat) : bool :=
@@ -172,64 +174,12 @@ Definition st_activated (c : hcfg) (r : hrec) (s : nat) : bool :=
 Definition st_deactivated (c : hcfg) (r : hrec) (s : nat) : bool :=
   negb (N.odd (tracked_tick c r s)) && N.odd (tracked_delta c r s).
 
-(* what FindLatest judges Activated/Deactivated by: the record against the
-   record stored just before it (db[i-1]); the oldest stored record has none *)
-Definition older_of (db : list hrec) (i : nat) : option hrec :=
-  match i with 0 => None | S j => nth_error db j end.
-
-Definition rel_activated (c : hcfg) (r : hrec) (older : option hrec) (s : nat) : bool :=
-  N.odd (tracked_tick c r s)
-  && match older with None => true | Some o => negb (N.odd (tracked_tick c o s)) end.
-Definition rel_deactivated (c : hcfg) (r : hrec) (older : option hrec) (s : nat) : bool :=
-  negb (N.odd (tracked_tick c r s))
-  && match older with None => true | Some o => N.odd (tracked_tick c o s) end.
-
-(* the four state conditions, record against previous stored record *)
-Definition state_sat (c : hcfg) (q : query) (r : hrec) (older : option hrec) : bool :=
-  forallb (st_active c r) (q_active q)
-  && forallb (rel_activated c r older) (q_activated q)
-  && forallb (st_inactive c r) (q_inactive q)
-  && forallb (rel_deactivated c r older) (q_deactivated q).
-
-(* the four state conditions as the field comments put them *)
-Definition state_sat_doc (c : hcfg) (q : query) (r : hrec) : bool :=
+(* the four state conditions *)
+Definition state_sat (c : hcfg) (q : query) (r : hrec) : bool :=
   forallb (st_active c r) (q_active q)
   && forallb (st_activated c r) (q_activated q)
   && forallb (st_inactive c r) (q_inactive q)
   && forallb (st_deactivated c r) (q_deactivated q).
-
-(* the activity of s when the record's own transition began *)
-Definition prev_active (c : hcfg) (r : hrec) (s : nat) : bool :=
-  xorb (N.odd (tracked_tick c r s)) (N.odd (tracked_delta c r s)).
-
-(* "linked": where s is active in r (it may have been activated), the previous
-   stored record shows s as it was when r's own transition began - for the
-   oldest stored record: s was inactive then.  True of every record but the
-   oldest when every transition is recorded; false in general for the oldest
-   record after a rotation and across unrecorded transitions. *)
-Definition linked_act (c : hcfg) (older : option hrec) (r : hrec) (s : nat) : bool :=
-  negb (N.odd (tracked_tick c r s))
-  || Bool.eqb (match older with Some o => N.odd (tracked_tick c o s) | None => false end)
-              (prev_active c r s).
-
-(* where s is inactive in r (it may have been deactivated): the same, and for
-   the oldest stored record: s was active then *)
-Definition linked_deact (c : hcfg) (older : option hrec) (r : hrec) (s : nat) : bool :=
-  N.odd (tracked_tick c r s)
-  || Bool.eqb (match older with Some o => N.odd (tracked_tick c o s) | None => true end)
-              (prev_active c r s).
-
-Definition linked_for (c : hcfg) (q : query) (older : option hrec) (r : hrec) : bool :=
-  forallb (linked_act c older r) (q_activated q)
-  && forallb (linked_deact c older r) (q_deactivated q).
-
-(* a history in which every transition starts from where the previous one
-   ended ([cur] = the machine time when the history starts) *)
-Fixpoint chained (cur : list N) (txs : list htx) : Prop :=
-  match txs with
-  | [] => True
-  | tx :: rest => x_before tx = cur /\ chained (x_after tx) rest
-  end.
 
 (* a scalar range applies when both ends are given (non-zero), inclusive *)
 Definition in_range (s e v : N) : bool :=
@@ -267,21 +217,17 @@ Definition mtime_wf (q : query) : bool :=
 Definition time_cond_impl (c : hcfg) (q : query) (r : hrec) : bool :=
   negb (mtime_skip c q r) && scalar_sat q r.
 
-(* a record satisfies the query, by the field comments *)
+(* a record satisfies the query *)
 Definition rec_sat (c : hcfg) (q : query) (r : hrec) : bool :=
-  state_sat_doc c q r && mtime_sat c q r && scalar_sat q r.
-
-(* ... and with Activated/Deactivated judged against the previous stored record *)
-Definition rec_sat_rel (c : hcfg) (q : query) (r : hrec) (older : option hrec) : bool :=
-  state_sat c q r older && mtime_sat c q r && scalar_sat q r.
+  state_sat c q r && mtime_sat c q r && scalar_sat q r.
 
 (* which clause a record fails first: 1 Active, 2 Activated, 3 Inactive,
    5 Deactivated, 6 machine-time vector, 7 scalar range, 0 none *)
-Definition failing_clause (c : hcfg) (q : query) (r : hrec) (older : option hrec) : N :=
+Definition failing_clause (c : hcfg) (q : query) (r : hrec) : N :=
   if negb (forallb (st_active c r) (q_active q)) then 1
-  else if negb (forallb (rel_activated c r older) (q_activated q)) then 2
+  else if negb (forallb (st_activated c r) (q_activated q)) then 2
   else if negb (forallb (st_inactive c r) (q_inactive q)) then 3
-  else if negb (forallb (rel_deactivated c r older) (q_deactivated q)) then 5
+  else if negb (forallb (st_deactivated c r) (q_deactivated q)) then 5
   else if negb (mtime_sat c q r) then 6
   else if negb (scalar_sat q r) then 7
   else 0.
@@ -292,19 +238,15 @@ Definition take_limit {A} (limit : Z) (l : list A) : list A :=
 (* positions newest first: n-1, ..., 0 *)
 Definition positions_desc (n : nat) : list nat := rev (seq 0 n).
 
-(* positions (newest first, limited) of the records satisfying [P record older] *)
-Definition select_latest (P : hrec -> option hrec -> bool) (db : list hrec) (limit : Z) : list nat :=
+(* positions (newest first, limited) of the stored records satisfying P *)
+Definition filter_latest (P : hrec -> bool) (db : list hrec) (limit : Z) : list nat :=
   take_limit limit
-    (filter (fun i => match nth_error db i with Some r => P r (older_of db i) | None => false end)
+    (filter (fun i => match nth_error db i with Some r => P r | None => false end)
             (positions_desc (length db))).
 
 (* the reference answer: a plain filter over the log, newest first, limited *)
 Definition find_latest_spec (c : hcfg) (db : list hrec) (limit : Z) (q : query) : list nat :=
-  select_latest (fun r _ => rec_sat c q r) db limit.
-
-(* the same with Activated/Deactivated judged against the previous stored record *)
-Definition find_latest_spec_rel (c : hcfg) (db : list hrec) (limit : Z) (q : query) : list nat :=
-  select_latest (rec_sat_rel c q) db limit.
+  filter_latest (rec_sat c q) db limit.
 
 Fixpoint strictly_desc (l : list nat) : bool :=
   match l with
@@ -320,25 +262,48 @@ Definition states_free (q : query) : bool :=
   is_nil (q_active q) && is_nil (q_activated q) && is_nil (q_inactive q)
   && is_nil (q_deactivated q).
 
-Definition strip_states (q : query) : query :=
-  {| q_active := []; q_activated := []; q_inactive := []; q_deactivated := [];
-     q_start := q_start q; q_end := q_end q |}.
-
-(* the *Between helpers: some record within [hs,he] for which the state
-   condition holds *)
-Definition between_spec (c : hcfg) (db : list hrec) (kind : N) (s : nat) (hs he : N) : bool :=
-  is_tracked c s
-  && existsb (rec_sat c (between_query kind s hs he)) db.
-
-(* the single state condition of a helper: 0 activated, 1 active,
+(* the single state condition of a *Between helper: 0 activated, 1 active,
    2 deactivated, 3 inactive *)
-Definition between_cond (c : hcfg) (kind : N) (s : nat) (r : hrec) (older : option hrec) : bool :=
+Definition between_cond (c : hcfg) (kind : N) (s : nat) (r : hrec) : bool :=
   match kind with
-  | 0%N => rel_activated c r older s
+  | 0%N => st_activated c r s
   | 1%N => st_active c r s
-  | 2%N => rel_deactivated c r older s
+  | 2%N => st_deactivated c r s
   | _ => st_inactive c r s
   end.
+
+(* the *Between helpers: the state is tracked and some stored record with
+   HTime within [hs,he] satisfies the state condition *)
+Definition between_spec (c : hcfg) (db : list hrec) (kind : N) (s : nat) (hs he : N) : bool :=
+  is_tracked c s
+  && existsb (fun r => between_cond c kind s r && in_range hs he (r_htime r)) db.
+
+(* ---- the reading of Activated / Deactivated that FindLatest had between
+   eab91e0 and 3ac5b4b: the record against the record stored just before it
+   (db[i-1]); the oldest stored record has none and passed.  Kept ONLY so that
+   the evaluator can name a relapse (codes 2:241-2:246); no theorem is about it. *)
+Definition older_of (db : list hrec) (i : nat) : option hrec :=
+  match i with 0 => None | S j => nth_error db j end.
+
+Definition rel_activated (c : hcfg) (r : hrec) (older : option hrec) (s : nat) : bool :=
+  N.odd (tracked_tick c r s)
+  && match older with None => true | Some o => negb (N.odd (tracked_tick c o s)) end.
+Definition rel_deactivated (c : hcfg) (r : hrec) (older : option hrec) (s : nat) : bool :=
+  negb (N.odd (tracked_tick c r s))
+  && match older with None => true | Some o => N.odd (tracked_tick c o s) end.
+
+Definition rec_sat_rel (c : hcfg) (q : query) (r : hrec) (older : option hrec) : bool :=
+  forallb (st_active c r) (q_active q)
+  && forallb (rel_activated c r older) (q_activated q)
+  && forallb (st_inactive c r) (q_inactive q)
+  && forallb (rel_deactivated c r older) (q_deactivated q)
+  && mtime_sat c q r && scalar_sat q r.
+
+Definition find_latest_spec_rel (c : hcfg) (db : list hrec) (limit : Z) (q : query) : list nat :=
+  take_limit limit
+    (filter (fun i => match nth_error db i with
+                      | Some r => rec_sat_rel c q r (older_of db i) | None => false end)
+            (positions_desc (length db))).
 
 Fixpoint exists_with_older (P : hrec -> option hrec -> bool) (prev : option hrec) (db : list hrec) : bool :=
   match db with
@@ -346,10 +311,13 @@ Fixpoint exists_with_older (P : hrec -> option hrec -> bool) (prev : option hrec
   | r :: rest => P r prev || exists_with_older P (Some r) rest
   end.
 
-(* ... with Activated/Deactivated judged against the previous stored record *)
 Definition between_spec_rel (c : hcfg) (db : list hrec) (kind : N) (s : nat) (hs he : N) : bool :=
   is_tracked c s
-  && exists_with_older (fun r o => between_cond c kind s r o && in_range hs he (r_htime r)) None db.
+  && exists_with_older
+       (fun r o => match kind with
+                   | 0%N => rel_activated c r o s | 1%N => st_active c r s
+                   | 2%N => rel_deactivated c r o s | _ => st_inactive c r s
+                   end && in_range hs he (r_htime r)) None db.
 
 (* ------------------------------------------------------------ (4) Export / Import *)
 
